@@ -92,10 +92,30 @@ BothArms ==
                        [] ctx = 2 -> << Upd(X, 1), Set(Y, Cond(C1, e1, Cond(C2, e2, e1))), Upd(X, 2) >>
         IN  P("hb-" \o ToString(i), stmts, <<"botharms", ToString(ctx)>>)]
 
+\* constant-condition ?: with side-effecting arms, followed by further side-effecting operations in the same statement:
+\* only the selected arm exists after folding, and the temporaries of the remaining operations must stay distinct
+CFalse == << K(0), Bin("==", K(1), K(0)) >>
+CTrue == << K(1), Bin("<", K(1), K(2)) >>
+ConstArms ==
+    [i \in 1..(NH * 4) |->
+        LET h == Hybrids[((i - 1) % NH) + 1]
+            v == (i - 1) \div NH
+            \* (fresh locals, so that no object is modified twice or modified and read without a sequence point)
+            other == Postfix("++", Var("p2"))
+            third == Call("clz32", <<CastE(U32, Postfix("++", Var("w")))>>)
+            e == CASE v = 0 -> Cond(CFalse[1], other, h.e)
+                   [] v = 1 -> Cond(CTrue[1], h.e, other)
+                   [] v = 2 -> Cond(CFalse[2], Call("clz32", <<CastE(U32, A)>>), h.e)
+                   [] v = 3 -> Cond(CTrue[2], h.e, Call("hinc", <<A>>))
+        IN  P("hk-" \o ToString(i), << Decl(S32, "p1", K(5)), Decl(S32, "p2", K(70)), Decl(U32, "w", K(9)), Upd(X, 1),
+                                        Decl(S32, "z", Bin("+", Bin("+", e, Postfix("++", Var("p1"))), CastE(S32, third))), Upd(X, 2),
+                                        Set(Y, Bin("+", Bin("+", Y, Var("z")), Bin("+", Var("p1"), Bin("+", Var("p2"), CastE(S32, Var("w")))))) >>,
+              <<"constarm", ToString(v), h.tag>>)]
+
 \* no hybrid at all (control group)
 Controls == << P("h0-plain", << Upd(X, 1), Set(Y, Bin("+", X, K(1))), Upd(X, 2) >>, <<"control">>) >>
 
-Programs == Singles \o Doubles \o BothArms \o Controls
+Programs == Singles \o Doubles \o BothArms \o ConstArms \o Controls
 Out == [programs |-> Programs, subs |-> Subs]
 
 VARIABLE x
